@@ -4,6 +4,12 @@ import itertools
 import random
 
 
+def pick_align(rng):
+    """offset of the application's symbol buffers from a 16-byte boundary: aligned (a third), behind a 4-byte header
+    (what the shipped example client does), and every other offset 1..7"""
+    return rng.choice([0, 0, 0, 4, 4, 1, 2, 3, 5, 6, 7, 4])
+
+
 def need_len(codec, k, m):
     if codec == 1 or (codec == 2 and m == 8):
         return max(1, k)
